@@ -99,17 +99,17 @@ static void s_destroyed(qb_ipcs_connection_t *c) { int i = conn_of(c); if (i >= 
    (the main thread touches nothing meanwhile, so the harness state is never accessed concurrently). */
 static pthread_mutex_t rescue_mx = PTHREAD_MUTEX_INITIALIZER;
 static volatile int in_send, rescue_on, rescues, fc_state;
-static volatile double send_start_ms;
+static volatile double send_start_ms, rescue_delay_ms = 2.0;	/* how long the server stays away while the client is stuck (a busy server) */
 static double now_ms(void) { struct timespec ts; clock_gettime(CLOCK_MONOTONIC, &ts); return ts.tv_sec * 1e3 + ts.tv_nsec / 1e6; }
 static void *rescue_main(void *)
 {
 	for (;;) {
 		struct timespec ts = { 0, 300000 }; nanosleep(&ts, NULL);
-		if (!in_send || now_ms() - send_start_ms < 2.0) continue;
+		if (!in_send || now_ms() - send_start_ms < rescue_delay_ms) continue;
 		pthread_mutex_lock(&rescue_mx);
 		if (in_send) {
 			/* a server that keeps flow control on never reads: after 20 ms it lifts it, as a real server eventually would */
-			if (fc_state && now_ms() - send_start_ms > 20.0) { qb_ipcs_request_rate_limit(S, QB_IPCS_RATE_NORMAL); fc_state = 0; }
+			if (fc_state && now_ms() - send_start_ms > rescue_delay_ms + 20.0) { qb_ipcs_request_rate_limit(S, QB_IPCS_RATE_NORMAL); fc_state = 0; }
 			server_step(0); rescues++;
 		}
 		pthread_mutex_unlock(&rescue_mx);
@@ -176,7 +176,7 @@ extern "C" void verif_init(void) { sbuf = (uint8_t *)malloc(1 << 20); rbuf = (ui
 extern "C" int verif_case(const uint8_t *data, size_t size, struct verif_report *r)
 {
 	vr_init(&V, data, size);
-	R = r; DISP.clear(); JOBS.clear(); nt_retry = nt_inflight = false;
+	R = r; DISP.clear(); JOBS.clear(); nt_retry = nt_inflight = false; rescue_delay_ms = 2.0;
 	for (int i = 0; i < 3; i++) { C[i] = conn(); C[i].idx = -1; }
 	enum qb_ipc_type type = vr_bool(&V) ? QB_IPC_SHM : QB_IPC_SOCKET;
 	size_t want = (size_t[]){ 0, 0, 20000, 65536 }[vr_u8(&V) % 4];
@@ -261,8 +261,9 @@ extern "C" int verif_case(const uint8_t *data, size_t size, struct verif_report 
 			int v = 1; struct qb_ipcs_connection *sc = (struct qb_ipcs_connection *)c.sv;
 			setsockopt(c.cl->setup.u.us.sock, SOL_SOCKET, SO_SNDBUF, &v, sizeof v);
 			setsockopt(sc->setup.u.us.sock, SOL_SOCKET, SO_RCVBUF, &v, sizeof v);
+			rescue_delay_ms = (vr_u8(&V) % 3 == 0) ? 150.0 : 2.0;
 			rescue_start();
-			vop(r, 6, c.idx, 0); VLOG(r, "client %d: client-to-server notification socket shrunk\n", c.idx);
+			vop(r, 6, c.idx, rescue_delay_ms > 100); VLOG(r, "client %d: client-to-server notification socket shrunk; a stuck client is left waiting for %.0f ms before the server runs\n", c.idx, (double)rescue_delay_ms);
 		}
 		else if (op <= 29 && c.sv) {	/* a burst of events */
 			int n = 2 + vr_u8(&V) % 30;
